@@ -653,6 +653,27 @@ pub fn gen_body(i: u64) -> Option<String> {
     tree::parse_ok(&out).map(|_| out)
 }
 
+// ------------------------------------------------------------------------------------------------
+// wide (flat) families: size grows, nesting does not — per-node work must stay constant
+
+pub const WIDE_FAMILIES: usize = 10;
+
+pub fn wide(family: usize, n: usize) -> String {
+    let n = n.max(1);
+    match family % WIDE_FAMILIES {
+        0 => format!("#let x = {}", vec!["alpha"; n].join(" + ")),
+        1 => format!("#let x = v{}", ".map(it => it + 1)".repeat(n)),
+        2 => format!("#let x = ({})", (0..n).map(|i| format!("item{}", i)).collect::<Vec<_>>().join(", ")),
+        3 => format!("#f({})", (0..n).map(|i| format!("k{}: v{}", i, i)).collect::<Vec<_>>().join(", ")),
+        4 => format!("#{{\n{}}}", (0..n).map(|i| format!("  let v{} = {}\n", i, i)).collect::<String>()),
+        5 => (0..n).map(|i| format!("Line {} with #f({}) and $x_{}$ text.\n", i, i, i)).collect::<String>(),
+        6 => format!("$ {} $", (0..n).map(|i| format!("a_{} + b^{}", i, i)).collect::<Vec<_>>().join(" \\\n  ")),
+        7 => (0..n).map(|i| format!("- item {}\n", i)).collect::<String>(),
+        8 => format!("#table(columns: 3, {})", (0..n).map(|i| format!("[c{}]", i)).collect::<Vec<_>>().join(", ")),
+        _ => format!("#let x = a{}", ".b".repeat(n)) + "(1)",
+    }
+}
+
 pub fn all_gen_pools() -> Vec<Box<dyn Pool>> {
     let mk = |name: &str, f: fn(u64) -> Option<String>| -> Box<dyn Pool> {
         Box::new(GenPool { name: name.into(), n: GEN_N, f: Box::new(f) })
